@@ -11,3 +11,4 @@ import Xrfmv.Props.C19
 #print axioms Xrfmv.Props.C19.fit_scale_invariant_partial
 #print axioms Xrfmv.Props.C19.fit_scale_invariant_iter0
 #print axioms Xrfmv.Props.C19.normalised_agop_scale_free
+#print axioms Xrfmv.Props.C19.fit_scale_invariant_concrete
